@@ -241,6 +241,21 @@ class VLoop(base_events.BaseEventLoop):
             self._time_limit = None
             self._leave()
 
+    def running(self):
+        """Context manager: code inside sees this loop as the running loop (for constructors that call
+        asyncio.get_running_loop() and for eager tasks), without running any iteration."""
+        import contextlib
+
+        @contextlib.contextmanager
+        def cm():
+            self._enter()
+            try:
+                yield self
+            finally:
+                self._leave()
+
+        return cm()
+
     def next_timer(self) -> float | None:
         return self._scheduled[0]._when if self._has_live_timer() else None
 
